@@ -6,6 +6,7 @@ if [ "$1" = "--setup" ]; then
   set -e
   mkdir -p build evidence
   python3 tools/extract.py
+  python3 tools/mkcopy.py
   (cd lean && lake build TinyHttpModel driver)
   (cd harness && cargo build --release --offline)
   echo "setup done"
